@@ -226,6 +226,46 @@ func (w *world) oracleLive(rates []uint64, valid bool) {
 
 func stateBuilders() []stateBuilder {
 	return []stateBuilder{
+		{"lend_only_stable_debt", func(w *world, p params) []string {
+			// asset 2 has stable-rate parameters 0/0/0 (accepted by AddAssetRatesParams); the only debt in it is a STABLE
+			// borrow (allowed because stable borrowing is switched on for the pair's collateral asset 3)
+			w.base("0.5")
+			a2, a3 := w.asset["uasset2"], w.asset["uasset3"]
+			cm := w.app["commodo"]
+			w.deliver(lendtypes.NewMsgLend(w.user("u1"), a2, coin("uasset2", 10000000000), 1, cm), "lend a2")
+			w.deliver(lendtypes.NewMsgLend(w.user("u2"), a3, coin("uasset3", 10000000000), 1, cm), "lend a3")
+			r := w.try(lendtypes.NewMsgBorrow(w.user("u2"), 2, w.pairID(a3, a2, 1), true, coin("ucasset3", 1000000000), coin("uasset2", 100000000)))
+			w.note("stable borrow ok=%v %s", r.OK, short(r.Err))
+			w.deliver(lendtypes.NewMsgLend(w.user("u3"), a3, coin("uasset3", 10000000000), 1, cm), "lend a3")
+			r = w.try(lendtypes.NewMsgBorrow(w.user("u3"), 3, w.pairID(a3, a2, 1), true, coin("ucasset3", 1000000000), coin("uasset2", 100000000)))
+			w.note("second stable borrow ok=%v %s", r.OK, short(r.Err))
+			for id := uint64(1); id <= 2; id++ {
+				b, _ := w.App.LendKeeper.GetBorrow(w.Ctx, id)
+				w.note("borrow %d: stable=%v reserveGlobalIndex=%s", id, b.IsStableBorrow, b.ReserveGlobalIndex)
+			}
+			w.mustBlock(6 * time.Second)
+			w.advance(6 * time.Second)
+			return []string{"begin"}
+		}},
+		{"lend_collateral_lent_out", func(w *world, p params) []string {
+			// the collateral asset of the unsafe borrows was itself lent out to other borrowers: the pool account cannot
+			// hand the collateral over to the auction module
+			w.base("0.5")
+			a1, a2 := w.asset["uasset1"], w.asset["uasset2"]
+			cm := w.app["commodo"]
+			w.deliver(lendtypes.NewMsgLend(w.user("u1"), a1, coin("uasset1", 1000000000), 1, cm), "lend a1")
+			w.deliver(lendtypes.NewMsgLend(w.user("u2"), a1, coin("uasset1", 1000000000), 1, cm), "lend a1")
+			w.deliver(lendtypes.NewMsgLend(w.user("u3"), a2, coin("uasset2", 20000000000), 1, cm), "lend a2")
+			w.deliver(lendtypes.NewMsgBorrow(w.user("u1"), 1, w.pairID(a1, a2, 1), false, coin("ucasset1", 1000000000), coin("uasset2", 700000000)), "borrow a2")
+			w.deliver(lendtypes.NewMsgBorrow(w.user("u2"), 2, w.pairID(a1, a2, 1), false, coin("ucasset1", 1000000000), coin("uasset2", 700000000)), "borrow a2")
+			r := w.try(lendtypes.NewMsgBorrow(w.user("u3"), 3, w.pairID(a2, a1, 1), false, coin("ucasset2", 10000000000), coin("uasset1", 1900000000)))
+			w.note("u3 borrows nearly all of asset 1 ok=%v %s", r.OK, short(r.Err))
+			w.mustBlock(6 * time.Second)
+			w.setPrice(a1, p.Drop*17/20, true)
+			w.setPrice(a2, p.Drop*2, true)
+			w.advance(6 * time.Second)
+			return []string{"begin"}
+		}},
 		{"rewards_due", func(w *world, p params) []string {
 			w.rewardsDue(p)
 			w.advance(25 * time.Hour)
